@@ -384,7 +384,7 @@ def build(s: dict, ch: Optional[dict] = None, rng: Optional[random.Random] = Non
         cm = "both" if (not dc and ch["count_mode"] in ("new", "newany")) else ch["count_mode"]
         if cm == "newany":
             # the new field carries the count; the old field holds something else (Props/C07.v, C07_count_field_*: any old value)
-            cm = (rng.choice([0, max(0, len(dc) - 1), len(dc) + 1, 0xFFFF, rng.randrange(65536)]), len(dc))
+            cm = ("new", rng.choice([0, max(0, len(dc) - 1), len(dc) + 1, 0xFFFF, rng.randrange(65536)]))
         if ch.get("pad_frame0_to") and f == 0:
             # exactly that many chunks in frame 0 (empty ignorable chunks appended), counted the way ch["pad_count"] says
             dc = dc + [ase.RawChunk(IGNORABLE[i % 3], b"") for i in range(ch["pad_frame0_to"] - len(dc))]
